@@ -144,6 +144,13 @@ pub fn do_damage_op(st: &mut TreeSt, toks: &[&str], _c: &mut Ctx) -> String {
                 }
             }
         }
+        "LPUSHV" => {
+            if let Some(id) = leaf_at(p(toks[2]) as usize) {
+                if let Some(l) = t.get_leaf_mut(id) {
+                    l.push_value(VVal::new(p(toks[3])));
+                }
+            }
+        }
         "LTRUNC" => {
             if let Some(id) = leaf_at(p(toks[2]) as usize) {
                 if let Some(l) = t.get_leaf_mut(id) {
